@@ -171,6 +171,16 @@ def x_hist(ctx, case):
             ctx.check(False, "failfast.settable-on-outermost", {"stack": case["stack"], "error": repr(e)})
             return True
         failfast = bool(value)
+    if case["failfast"] != "leaf":
+        # the attribute reads back what was assigned last on the outermost object (unset: off)
+        # (TestResultDecorator has no such attribute until one is assigned: nothing to read then)
+        try:
+            seen = bool(top.failfast)
+        except AttributeError:
+            seen = None
+        if seen is not None:
+            ctx.check(seen == failfast, "failfast.reads-back-what-was-set",
+                      lambda: {"stack": case["stack"], "reads": seen, "set": failfast, "case": case})
     detail = lambda: {"case": case}  # noqa: E731
     nontrivial = False
     i = 0
